@@ -134,8 +134,12 @@ def add_features_calculator(mod: fx.GraphModule, extra_rules: List[Callable] = [
             # for concatenation over the features axis the number of output features is the sum
             # of the output features of preceding layers as for flatten, this is NOT equal to the
             # input shape of this layer, when one or more predecessors are NAS-able
+            # n.all_input_nodes lists a tensor that is concatenated more than once only once
+            cat_inputs = try_get_args(n, mod, 0, 'tensors', n.all_input_nodes)
+            if not all(isinstance(_, fx.Node) for _ in cat_inputs):
+                cat_inputs = n.all_input_nodes
             ifc = ConcatFeaturesCalculator(
-                [prev.meta['features_calculator'] for prev in n.all_input_nodes]
+                [prev.meta['features_calculator'] for prev in cat_inputs]
             )
             n.meta['features_calculator'] = ifc
         elif n.meta['shared_input_features']:
